@@ -945,7 +945,8 @@ void oasis_write_repetition(OasisStream& out, const Repetition repetition, doubl
                 double* c1 = c0 + 1;
                 oasis_write_unsigned_integer(out, (uint64_t)llround(*c0 * scaling));
                 for (uint64_t i = repetition.coords.count - 1; i > 0; --i) {
-                    oasis_write_unsigned_integer(out, (uint64_t)llround((*c1++ - *c0++) * scaling));
+                    oasis_write_unsigned_integer(
+                        out, (uint64_t)(llround(*c1++ * scaling) - llround(*c0++ * scaling)));
                 }
                 free_allocation(items);
             }
@@ -961,7 +962,8 @@ void oasis_write_repetition(OasisStream& out, const Repetition repetition, doubl
                 double* c1 = c0 + 1;
                 oasis_write_unsigned_integer(out, (uint64_t)llround(*c0 * scaling));
                 for (uint64_t i = repetition.coords.count - 1; i > 0; --i) {
-                    oasis_write_unsigned_integer(out, (uint64_t)llround((*c1++ - *c0++) * scaling));
+                    oasis_write_unsigned_integer(
+                        out, (uint64_t)(llround(*c1++ * scaling) - llround(*c0++ * scaling)));
                 }
                 free_allocation(items);
             }
@@ -975,8 +977,9 @@ void oasis_write_repetition(OasisStream& out, const Repetition repetition, doubl
                 oasis_write_gdelta(out, (int64_t)llround(v0->x * scaling),
                                    (int64_t)llround(v0->y * scaling));
                 for (uint64_t i = repetition.coords.count - 1; i > 0; --i, ++v0, ++v1) {
-                    oasis_write_gdelta(out, (int64_t)llround((v1->x - v0->x) * scaling),
-                                       (int64_t)llround((v1->y - v0->y) * scaling));
+                    oasis_write_gdelta(
+                        out, (int64_t)(llround(v1->x * scaling) - llround(v0->x * scaling)),
+                        (int64_t)(llround(v1->y * scaling) - llround(v0->y * scaling)));
                 }
             }
             break;
